@@ -89,7 +89,16 @@ enum Op {
     /// CASE handshake of x as a background task; its k-th unencrypted secure-channel message
     /// (either direction, retransmissions not counted) is held back until the removal `rm` has
     /// been executed and answered, then released
-    CaseHeld { x: u8, fresh: bool, k: u8, rm: Rm, early_ack: bool },
+    CaseHeld {
+        x: u8,
+        fresh: bool,
+        k: u8,
+        rm: Rm,
+        early_ack: bool,
+        /// the DEVICE opens the handshake towards commissioner x (its fabric's administrator node)
+        #[serde(default)]
+        dev_initiates: bool,
+    },
     /// Subscribe of x as a background task: the StatusResponse to the first / last priming chunk
     /// is held back until the removal `rm` has been executed (on another exchange) and answered
     SubscribeHeld { x: u8, rm: Rm, first: bool, wide: bool },
@@ -147,11 +156,12 @@ fn any_op() -> impl Strategy<Value = Op> {
                 _ => Rm::Expire,
             },
         }),
-        2 => (comm(), any::<bool>(), 1u8..7, comm(), 0u8..4, any::<bool>()).prop_map(|(x, fresh, k, by, r, early_ack)| Op::CaseHeld {
+        2 => (comm(), any::<bool>(), 1u8..7, comm(), 0u8..4, any::<bool>(), prop::bool::weighted(0.4)).prop_map(|(x, fresh, k, by, r, early_ack, dev_initiates)| Op::CaseHeld {
             x,
             fresh,
             k,
             early_ack,
+            dev_initiates,
             rm: match r {
                 0 => Rm::Remove { by },
                 1 => Rm::Arm0,
@@ -187,7 +197,7 @@ enum Phase {
     /// x's fabric (pending or committed) is removed while a subscription of x is being primed
     Inprime { x: u8, y: u8, z: u8, pending: bool, first: bool, wide: bool, rm: u8, busy: bool },
     /// x's fabric (pending or committed) is removed while a CASE handshake of x is in flight
-    Inflight { x: u8, y: u8, z: u8, pending: bool, fresh: bool, k: u8, rm: u8, early_ack: bool },
+    Inflight { x: u8, y: u8, z: u8, pending: bool, fresh: bool, k: u8, rm: u8, early_ack: bool, dev_initiates: bool },
 }
 
 fn phase() -> impl Strategy<Value = Phase> {
@@ -208,8 +218,8 @@ fn phase() -> impl Strategy<Value = Phase> {
         3 => (comm(), comm(), any::<bool>()).prop_map(|(x, y, with_case)| Phase::EvictPending { x, y, with_case }),
         8 => (comm(), comm(), comm(), any::<bool>(), any::<bool>(), any::<bool>(), 0u8..8, prop::bool::weighted(0.3))
             .prop_map(|(x, y, z, pending, first, wide, rm, busy)| Phase::Inprime { x, y: if y == x { (x + 1) % N_COMM as u8 } else { y }, z, pending, first, wide, rm, busy }),
-        9 => (comm(), comm(), comm(), any::<bool>(), any::<bool>(), 1u8..7, 0u8..8, any::<bool>())
-            .prop_map(|(x, y, z, pending, fresh, k, rm, early_ack)| Phase::Inflight { x, y: if y == x { (x + 1) % N_COMM as u8 } else { y }, z, pending, fresh, k, rm, early_ack }),
+        9 => (comm(), comm(), comm(), any::<bool>(), any::<bool>(), 1u8..7, 0u8..8, any::<bool>(), prop::bool::weighted(0.4))
+            .prop_map(|(x, y, z, pending, fresh, k, rm, early_ack, dev_initiates)| Phase::Inflight { x, y: if y == x { (x + 1) % N_COMM as u8 } else { y }, z, pending, fresh, k, rm, early_ack, dev_initiates }),
     ]
 }
 
@@ -309,7 +319,7 @@ fn expand(p: &Phase) -> Vec<Op> {
             v.extend([Op::Wait(1200), Op::UseOld { x: *x, k: 255 }]);
             v
         }
-        Phase::Inflight { x, y, z, pending, fresh, k, rm, early_ack } => {
+        Phase::Inflight { x, y, z, pending, fresh, k, rm, early_ack, dev_initiates } => {
             let mut v = Vec::new();
             let rm = if *pending {
                 match rm % 8 {
@@ -334,7 +344,7 @@ fn expand(p: &Phase) -> Vec<Op> {
                 // a warm record to resume with
                 v.push(Op::Case { x: *x, fresh: true });
             }
-            v.push(Op::CaseHeld { x: *x, fresh: *fresh, k: *k, rm, early_ack: *early_ack });
+            v.push(Op::CaseHeld { x: *x, fresh: *fresh, k: *k, rm, early_ack: *early_ack, dev_initiates: *dev_initiates });
             v.extend([Op::UseOld { x: *x, k: 255 }, Op::ResumeOld { x: *x, k: 255 }]);
             // the next commissioner gets the index
             v.extend([Op::Pase(*z), Op::Arm(*z, 60), Op::Csr(*z), Op::Root(*z), Op::AddNoc(*z)]);
@@ -1059,7 +1069,7 @@ fn run_segment<CC: rs_matter::crypto::Crypto>(
                     }
                 }
             }
-            Op::CaseHeld { x, fresh, k, rm, early_ack } => {
+            Op::CaseHeld { x, fresh, k, rm, early_ack, dev_initiates } => {
                 let xi = *x as usize;
                 'held: {
                     let Some(idx0) = comms[xi].fab else {
@@ -1088,14 +1098,26 @@ fn run_segment<CC: rs_matter::crypto::Crypto>(
                         p.labels.push("inflight:skipped-removal-not-possible".into());
                         break 'held;
                     }
-                    if *fresh {
+                    let admin_node = w.kits[xi].admin_node;
+                    let dev_fab = core::num::NonZeroU8::new(idx0);
+                    if *dev_initiates {
+                        if *fresh {
+                            if let Some(df) = dev_fab {
+                                b.matter.with_state(|s| s.resumption.remove_by_peer(df, admin_node));
+                            }
+                        }
+                        p.labels.push("inflight:device-initiates".into());
+                    } else if *fresh {
                         b.ctrls[xi].matter.with_state(|s| s.resumption.remove_by_peer(f, DEV_NODE));
                     } else if b.ctrls[xi].matter.with_state(|s| s.resumption.find_by_peer(f, DEV_NODE).is_none()) {
                         let _ = do_case(b, comms, t, xi, ctrl_fab, p);
                     }
                     let from = b.tap_pos();
                     let hold = b.hold_install(xi, *k as usize);
-                    let task = b.case_spawn(xi, f, DEV_NODE);
+                    let task = match (*dev_initiates, dev_fab) {
+                        (true, Some(df)) => b.dev_case_spawn(xi, df, admin_node),
+                        _ => b.case_spawn(xi, f, DEV_NODE),
+                    };
                     let reached = {
                         let h = &hold;
                         b.run_until_or_case_end(&task, 3 * SEC, || h.held().is_some())
@@ -1158,7 +1180,13 @@ fn run_segment<CC: rs_matter::crypto::Crypto>(
                     b.hold_clear();
                     let resumed = b.device_sc_opcodes_since(from).contains(&OP_SIGMA2_RESUME);
                     note = format!("held={:?} removal: {removal}; handshake {:?} resumed={resumed} ctrl_sid={:?} dev_sid={:?}", hold.held().map(|m| (m.opcode, m.src)), end.result, end.ctrl_sid, end.dev_sid);
-                    if let Some(ctrl_sid) = end.ctrl_sid {
+                    if *dev_initiates {
+                        // (the sessions and records this leaves on the DEVICE are covered by the
+                        // table invariant; the commissioner's end is not used for probes)
+                        if end.result.is_ok() {
+                            p.labels.push("inflight:device-initiated-handshake-completed".into());
+                        }
+                    } else if let Some(ctrl_sid) = end.ctrl_sid {
                         // whatever came out of it was begun in generation gen0 of the index
                         let pair = SessPair { ctrl_sid, dev_sid: end.dev_sid.unwrap_or(u32::MAX), dev_local_sess: end.dev_local_sess.unwrap_or(0), ctrl: xi };
                         comms[xi].kept.push(Kept { pair, idx: idx0, gen: gen0, boot: p.boot_no });
@@ -1168,7 +1196,8 @@ fn run_segment<CC: rs_matter::crypto::Crypto>(
                         }
                     }
                     // the record the commissioner holds now (new or rotated) dates from generation gen0 too
-                    let rec: Option<ResumableSession> = b.ctrls[xi].matter.with_state(|s| s.resumption.find_by_peer(f, DEV_NODE).cloned());
+                    let rec: Option<ResumableSession> =
+                        if *dev_initiates { None } else { b.ctrls[xi].matter.with_state(|s| s.resumption.find_by_peer(f, DEV_NODE).cloned()) };
                     if let Some(rec) = rec {
                         let rid = rec.resumption_id.reference().access().to_vec();
                         if !comms[xi].recs.iter().any(|kr| kr.rec.resumption_id.reference().access().as_slice() == rid.as_slice()) {
